@@ -82,7 +82,7 @@ func witnesses() []histCfg {
 		},
 		{
 			name: "witness-unique-after-tombstone",
-			coll: &Coll{Name: "c19", IDName: "_id", Fields: []Field{{"n", tInt, 1}}, Indexes: []Index{{[]string{"n"}, true}}, nextGen: 1},
+			coll: &Coll{Name: "c19", IDName: "_id", Fields: []Field{{"n", tInt, 1}}, Indexes: []Index{{Cols: []string{"n"}, Unique: true}}, nextGen: 1},
 			fixed: func(h *hist) {
 				ids := h.insertDocs([]map[string]any{{"n": 20.0, "s": "D"}})
 				if len(ids) == 1 {
@@ -98,7 +98,7 @@ func witnesses() []histCfg {
 			// read-set validation stops at the first up-to-date snapshot: a read that refreshes only the
 			// primary index between two inserts lets the second one pass the unique check
 			name: "witness-unique-stale-snapshot", untied: true,
-			coll: &Coll{Name: "c19", IDName: "_id", Fields: []Field{{"s", tStr, 1}}, Indexes: []Index{{[]string{"s"}, true}}, nextGen: 1},
+			coll: &Coll{Name: "c19", IDName: "_id", Fields: []Field{{"s", tStr, 1}}, Indexes: []Index{{Cols: []string{"s"}, Unique: true}}, nextGen: 1},
 			fixed: func(h *hist) {
 				h.noRefresh = true
 				h.insertDocs([]map[string]any{{"s": "a"}})
